@@ -130,6 +130,13 @@ pub fn gen_case(seed: u64, idx: u64, uni: &UniCfg) -> Case {
             }
         })
         .collect();
+    let mut ops: Vec<OpSpec> = ops;
+    // sometimes the root directory itself is renamed (by somebody else) between two operations:
+    // nothing either backend remembers about the root's *path* may matter afterwards
+    if rng.chance(1, 12) && ops.len() > 1 {
+        let at = rng.range(1, ops.len() as u64 - 1) as usize;
+        ops.insert(at, OpSpec::new(Op::Sup { muts: vec![crate::world::Mutation::Rename { src: "root".into(), dst: "root-renamed".into() }] }));
+    }
     c.world = Some(world);
     c.jobs = vec![ops];
     c
@@ -275,7 +282,7 @@ pub fn compare(seed: u64, rk: coord::CheckResult, re: coord::CheckResult, fixed_
                 Some((format!("{pre}|{post}"), fl))
             };
             match (parse(a), parse(b)) {
-                (Some((ra, fa)), Some((rb, fb))) => ra == rb && fa != fb && (fa ^ fb) == libc::O_DIRECTORY && a.contains("fd path=/mnt/w/root type=40000") && (a.starts_with("resolve") || a.starts_with("mkdir_all")),
+                (Some((ra, fa)), Some((rb, fb))) => ra == rb && fa != fb && (fa ^ fb) == libc::O_DIRECTORY && (a.contains("fd path=/mnt/w/root type=40000") || a.contains("fd path=/mnt/w/root-renamed type=40000")) && (a.starts_with("resolve") || a.starts_with("mkdir_all")),
                 _ => false,
             }
         };
